@@ -17,6 +17,31 @@ def hexs(b):
     return bytes(b).hex() if b else "-"
 
 
+def _pinned():
+    """method -> (is_mask, declared values | union of declared bits) from the pinned snapshots (not from the working tree)"""
+    global _PIN
+    if _PIN is None:
+        sp = json.load(open(os.path.join(C.VERIF, "reference", "pinned-spirv.json")))
+        dec = json.load(open(os.path.join(C.VERIF, "reference", "pinned-T.json")))["decode"]
+        en = {e["name"]: {v for _, v in e["decl"]} for e in sp["enums"]}
+        mk = {}
+        for m in sp["masks"]:
+            u = 0
+            for _, v in m["consts"]:
+                u |= v
+            mk[m["name"]] = u
+        _PIN = {}
+        for m in dec:
+            if m["mask"] and m["type"] in mk:
+                _PIN[m["method"]] = (True, mk[m["type"]])
+            elif not m["mask"] and m["type"] in en:
+                _PIN[m["method"]] = (False, en[m["type"]])
+    return _PIN
+
+
+_PIN = None
+
+
 def oracle(req, resp):
     """C11 read off the implementation's answers alone (scripts carry an `off` after every request)."""
     if resp.startswith("panic"):
@@ -56,6 +81,17 @@ def oracle(req, resp):
                         s.decode("utf-8")
                     except UnicodeDecodeError:
                         return "string is not valid UTF-8"
+                if pop.startswith("e:") and pop[2:] in _pinned():
+                    # a typed request returns the enumeration value found at the current offset (and only a declared one)
+                    word = int.from_bytes(data[poff:poff + 4], "little")
+                    is_mask, decl = _pinned()[pop[2:]]
+                    if pout.startswith("ok:"):
+                        if int(pout[3:]) != word or o != poff + 4:
+                            return f"typed request {pop[2:]} at {poff}: word {word}, returned {pout}, offset {o}"
+                        if (word & ~decl) if is_mask else (word not in decl):
+                            return f"typed request {pop[2:]} accepted the undeclared value {word}"
+                    elif "Unknown" in pout and len(data) >= poff + 4 and (not (word & ~decl) if is_mask else (word in decl)):
+                        return f"typed request {pop[2:]} rejected the declared value {word} ({pout})"
                 if pop == "b64" and pout.startswith("ok:"):
                     if int(pout[3:]) != int.from_bytes(data[poff:poff + 8], "little") or o != poff + 8:
                         return f"bit64 at {poff}"
@@ -130,6 +166,17 @@ def gen(ctx, methods):
                 reqs.append(f"dec {hexs(b)} lim:{lim} {k1} off reached off")
                 for k2 in kinds:
                     reqs.append(f"dec {hexs(b)} w off lim:{lim} {k1} off {k2} off reached off")
+    # systematic: every typed request on every declared enumerant / every declared bit and their neighbours (the values where
+    # "returns the enumeration value found at the current offset" is decided per row of the generated conversion)
+    for m, (is_mask, decl) in _pinned().items():
+        if is_mask:
+            vals = {0, decl, 0xffffffff, 1 << 31} | {1 << k for k in range(32)} | {decl & ~(1 << k) for k in range(32) if decl >> k & 1}
+        else:
+            vals = set()
+            for v in decl:
+                vals |= {v, v + 1, max(0, v - 1)}
+        for v in sorted(vals):
+            reqs.append(f"dec {hexs(list(int(v).to_bytes(4, 'little')))} e:{m} off")
     return reqs
 
 
